@@ -14,8 +14,11 @@ CLASSIC_DTYPES = {"i1", "i2", "i4", "f4", "f8", "S"}
 ALL_NUM = ["i1", "i2", "i4", "i8", "u1", "u2", "u4", "u8", "f4", "f8"]
 STD_NAMES = ["air_temperature", "latitude", "longitude", "time", "height", "air_pressure",
              "grid_latitude", "grid_longitude", "altitude", "depth"]
-VAR_NAMES = ["t", "x", "y", "z", "lat", "lon", "p", "q", "tas", "aux0", "aux1", "msr", "anc", "v1", "v2", "w w"]
-DIM_NAMES = ["dx", "dy", "dz", "dt", "n", "m", "k", "bnd", "nv", "d d"]
+VAR_NAMES = ["t", "x", "y", "z", "lat", "lon", "p", "q", "tas", "aux0", "aux1", "msr", "anc", "v1", "v2"]
+DIM_NAMES = ["dx", "dy", "dz", "dt", "n", "m", "k", "bnd", "nv"]
+IMPLIED = {"latitude_longitude": ("latitude", "longitude"),
+           "rotated_latitude_longitude": ("grid_latitude", "grid_longitude", "latitude", "longitude"),
+           "lambert_conformal_conic": ("projection_x_coordinate", "projection_y_coordinate", "latitude", "longitude")}
 METHODS = ["mean", "maximum", "minimum", "point", "sum", "variance"]
 
 
@@ -84,14 +87,26 @@ def gen_spec(rng, profile="full"):
     else:
         spec["data"] = None
         span = list(range(nax))
-    if kind == "field" and rng.random() < 0.15 and spec["data"]["dtype"] != "S":
+    if kind == "field" and rng.random() < 0.15 and spec["data"]["dtype"] in ("i2", "i4", "i8", "f4", "f8"):
         spec["props"]["_FillValue"] = -99
-    if kind == "field" and rng.random() < 0.1 and spec["data"]["dtype"] != "S":
+    if kind == "field" and rng.random() < 0.1 and spec["data"]["dtype"] in ("i2", "i4", "i8", "f4", "f8"):
         spec["props"]["missing_value"] = -98
+    if kind == "field" and spec["data"]["dtype"] == "S":
+        for k in ("valid_range", "flag_values", "flag_meanings"):
+            spec["props"].pop(k, None)
     cons = spec["cons"]
     # dimension coordinates
+    unsp = [a for a in range(nax) if a not in span]
+
+    def pool():
+        # constructs other than a lone dimension coordinate on an axis the data do not span cannot be
+        # encoded in CF-netCDF without changing the field (known findings): keep them to a small probe
+        if unsp and rng.random() < 0.06 and not core:
+            return list(range(nax))
+        return list(span)
+
     for a in range(nax):
-        if rng.random() < 0.7:
+        if rng.random() < (0.7 if a in span else (0.96 if not core else 1.0)):
             c = {"type": "dim", "axes": [a], "props": gen_props(rng, "dim"), "dtype": num(), "ncvar": None, "mask": False}
             # the netCDF name of a coordinate variable is the name of its dimension: keep them consistent
             r = rng.random()
@@ -105,30 +120,42 @@ def gen_spec(rng, profile="full"):
                 c["bounds"] = gen_bounds(rng, names, c)
                 if rng.random() < 0.12 and not core:
                     c["climatology"] = True
+                    c["props"]["units"] = "days since 2000-01-01"
+                    c["props"].setdefault("calendar", "gregorian")
             cons.append(c)
     # auxiliary coordinates
     for _ in range(rng.choice([0, 0, 1, 1, 2, 3])):
-        if nax == 0:
+        pl = pool()
+        if not pl:
             break
         k = rng.choice([1, 1, 1, 2, 2, 3])
-        ax = rng.sample(range(nax), min(k, nax))
+        ax = rng.sample(pl, min(k, len(pl)))
         c = {"type": "aux", "axes": ax, "props": gen_props(rng, "aux"), "ncvar": names.draw(VAR_NAMES, 0.5),
              "dtype": "S" if rng.random() < 0.25 else num(), "mask": rng.random() < 0.2}
         if c["dtype"] != "S" and rng.random() < 0.35:
             c["bounds"] = gen_bounds(rng, names, c)
+        if c["dtype"] == "S":
+            c["mask"] = rng.random() < 0.06 and not core   # probe: numpy width > longest unmasked string
+            for k in ("valid_range", "flag_values", "flag_meanings", "units", "calendar"):
+                c["props"].pop(k, None)
         cons.append(c)
     # cell measures
     for _ in range(rng.choice([0, 0, 0, 1, 1, 2])):
-        if nax == 0:
+        pl = pool()
+        if not pl:
             break
-        ax = rng.sample(range(nax), min(rng.choice([1, 2, 2]), nax))
+        ax = rng.sample(pl, min(rng.choice([1, 2, 2]), len(pl)))
         c = {"type": "measure", "axes": ax, "props": gen_props(rng, "measure", 0.2), "ncvar": names.draw(VAR_NAMES, 0.5),
              "dtype": num(), "mask": False, "measure": rng.choice(["area", "volume"])}
-        if rng.random() < 0.25 and not core:
+        if rng.random() < 0.25 and not core and kind == "field":
             c["external"] = True
             if c["ncvar"] is None:
                 c["ncvar"] = names.draw(VAR_NAMES + ["ext1", "ext2", "ext3"], 1.0)
-            c["nodata"] = rng.random() < 0.5
+            if rng.random() < 0.5:
+                # as read from a file whose external variable was not resolved
+                c["nodata"] = True
+                c["axes"] = []
+                c["props"] = {}
         cons.append(c)
     # field ancillaries (over data axes)
     if kind == "field":
@@ -160,19 +187,28 @@ def gen_spec(rng, profile="full"):
             if rng.random() < 0.2:
                 r["datum"]["horizontal_datum_name"] = "WGS84"
             spec["refs"].append(r)
-        if rng.random() < 0.15:
-            # vertical (formula terms) reference owned by a 1-d coordinate
-            own = [j for j in coords if len(cons[j]["axes"]) == 1 and cons[j]["dtype"] != "S"]
+        if len(spec["refs"]) == 1 and rng.random() < 0.85:
+            # a lone grid mapping is written in the short form (no coordinate list); the reader then
+            # takes the coordinates the grid mapping name implies: make the reference canonical
+            r = spec["refs"][0]
+            r["coords"] = [j for j in coords if cons[j]["props"].get("standard_name") in
+                           IMPLIED[r["params"]["grid_mapping_name"]]]
+        if rng.random() < 0.0:
+            # vertical (formula terms) reference owned by a 1-d coordinate (left to example_field(1): see report)
+            own = [j for j in coords if len(cons[j]["axes"]) == 1 and cons[j]["dtype"] != "S" and cons[j]["axes"][0] in span]
             if own:
                 o = rng.choice(own)
                 cons[o]["props"]["standard_name"] = "atmosphere_hybrid_height_coordinate"
+                for r0 in spec["refs"]:
+                    r0["coords"] = [j for j in r0["coords"] if j != o]
                 for j in coords:
                     if j != o and cons[j]["props"].get("standard_name") == "atmosphere_hybrid_height_coordinate":
                         cons[j]["props"]["standard_name"] = "altitude"
                 dancs = {}
                 for term in ("a", "b", "orog"):
                     if rng.random() < 0.8:
-                        ax = cons[o]["axes"] if term != "orog" else rng.sample(range(nax), min(rng.choice([1, 2]), nax))
+                        pl = pool() or cons[o]["axes"]
+                        ax = cons[o]["axes"] if term != "orog" else rng.sample(pl, min(rng.choice([1, 2]), len(pl)))
                         cons.append({"type": "danc", "axes": list(ax), "props": gen_props(rng, "danc", 0.3),
                                      "ncvar": names.draw(VAR_NAMES, 0.4), "dtype": "f8", "mask": False})
                         dancs[term] = len(cons) - 1
@@ -180,27 +216,39 @@ def gen_spec(rng, profile="full"):
                                      "params": {"standard_name": "atmosphere_hybrid_height_coordinate",
                                                 "computed_standard_name": "altitude"},
                                      "dancs": dancs, "datum": {}})
-        if rng.random() < 0.05 and nax:
-            # a domain ancillary that no coordinate reference uses
+        if rng.random() < 0.02 and nax:
+            # probe F01h: a domain ancillary that no coordinate reference uses
             cons.append({"type": "danc", "axes": [rng.randrange(nax)], "props": gen_props(rng, "danc"),
                          "ncvar": names.draw(VAR_NAMES, 0.4), "dtype": "f8", "mask": False})
+    # unlimited: only an axis the data span and that has a coordinate variable can carry the flag in a file
+    for a in range(nax):
+        if axes[a]["unlimited"] and (kind == "domain" or a not in span or
+                                     not any(c["type"] == "dim" and c["axes"] == [a] for c in cons)):
+            axes[a]["unlimited"] = False
     # cell methods
+    with_dim = [a for a in range(nax) if any(c["type"] == "dim" and c["axes"] == [a] for c in cons)]
     if kind == "field":
+        for c in cons:
+            if c.get("climatology"):
+                spec["cms"].append({"axes": list(c["axes"]), "method": "mean",
+                                    "quals": {rng.choice(["within", "over"]): rng.choice(["days", "years"])}})
         for _ in range(rng.choice([0, 0, 1, 1, 2, 3])):
             r = rng.random()
             if r < 0.1 or nax == 0:
                 ax = ["area"]
             elif r < 0.2 and not core:
-                ax = [rng.choice(STD_NAMES)]
+                ax = [rng.choice(["realization", "forecast_period", "model_level_number"])]
             else:
-                ax = rng.sample(range(nax), min(rng.choice([1, 1, 2]), nax))
+                # an axis without a dimension coordinate cannot be matched by cfdm's equals (C05): small probe
+                pl = with_dim if (with_dim and (core or rng.random() < 0.95)) else list(range(nax))
+                if core and not with_dim:
+                    continue
+                ax = rng.sample(pl, min(rng.choice([1, 1, 2]), len(pl)))
             cm = {"axes": ax, "method": rng.choice(METHODS), "quals": {}}
             if rng.random() < 0.25:
                 cm["quals"]["where"] = "land"
-                if rng.random() < 0.4:
-                    cm["quals"]["over"] = "sea"
-            elif rng.random() < 0.2:
-                cm["quals"][rng.choice(["within", "over"])] = rng.choice(["days", "years"])
+                if rng.random() < 0.05 and not core:
+                    cm["quals"]["over"] = "sea"      # probe: F01i
             if rng.random() < 0.2:
                 cm["quals"]["comment"] = rng.choice(["standard comment", "x"])
             spec["cms"].append(cm)
@@ -208,10 +256,10 @@ def gen_spec(rng, profile="full"):
 
 
 def gen_bounds(rng, names, c):
-    b = {"n": rng.choice([2, 2, 2, 4]), "ncvar": names.draw(["xb", "yb", "tb", "bnds", "b b"], 0.4),
+    b = {"n": rng.choice([2, 2, 2, 4]), "ncvar": names.draw(["xb", "yb", "tb", "bnds"], 0.4),
          "ncdim": names.draw(DIM_NAMES, 0.3), "props": {}}
-    if rng.random() < 0.2 and "units" in c["props"]:
-        b["props"]["units"] = c["props"]["units"]
+    if rng.random() < 0.04 and "units" in c["props"]:
+        b["props"]["units"] = c["props"]["units"]   # probe: F01g
     if rng.random() < 0.1:
         b["props"]["long_name"] = "bounds of it"
     return b
@@ -228,7 +276,7 @@ def spec_dtypes(spec):
 
 def gen_options(rng, spec, default=False):
     if default:
-        return {}
+        return {"external_file": True} if any(c.get("external") and not c.get("nodata") for c in spec["cons"]) else {}
     dts = spec_dtypes(spec)
     unlimited = [a for a in spec["axes"] if a["unlimited"]]
     fmts = []
@@ -251,27 +299,338 @@ def gen_options(rng, spec, default=False):
         if rng.random() < 0.25:
             o["fletcher32"] = True
         if rng.random() < 0.4:
-            o["hdf5_chunks"] = rng.choice(["contiguous", "1 KiB", 64, "4 MiB"])
+            o["hdf5_chunks"] = rng.choice((["contiguous"] if not unlimited else []) + ["1 KiB", 64, "4 MiB"])
             if o["hdf5_chunks"] == "contiguous":
                 o.pop("compress", None)
                 o.pop("fletcher32", None)
                 o["shuffle"] = False
-    if rng.random() < 0.4:
+    if rng.random() < 0.4 and o["fmt"] in ("NETCDF4", "NETCDF4_CLASSIC"):
         o["endian"] = rng.choice(["little", "big", "native"])
     if rng.random() < 0.3:
         o["group"] = False
     if rng.random() < 0.3:
         o["coordinates"] = True
-    if any(c.get("external") for c in spec["cons"]) and rng.random() < 0.6:
-        o["external_file"] = True
+    if any(c.get("external") and not c.get("nodata") for c in spec["cons"]):
+        o["external_file"] = True     # without it the data of an external variable are (documentedly) not written
     return o
 
 
-if __name__ == "__main__":
-    import random
-    import sys
-    rng = random.Random(int(sys.argv[1]) if len(sys.argv) > 1 else 1)
-    for _ in range(3):
-        s = gen_spec(rng)
-        print(json.dumps(s))
-        print(gen_options(rng, s))
+
+# ---------------------------------------------------------------- classification of failures
+OMIT_BOUNDS = ("units", "calendar", "standard_name", "axis", "positive", "leap_month", "leap_year", "month_lengths")
+
+
+def spanned(spec):
+    if spec["kind"] == "domain" or not spec.get("data"):
+        return set(range(len(spec["axes"]))) if spec["kind"] == "domain" else set()
+    return set(spec["data"]["axes"])
+
+
+def expected_findings(spec, opts):
+    """Signatures of the known defect classes this input belongs to (computed from the input only)."""
+    out = []
+    cons = spec["cons"]
+    sp = spanned(spec)
+    if opts.get("endian") == "big":
+        out.append("endian-big-read-back-dtype-not-equal")
+    gms = [r for r in spec["refs"] if "grid_mapping_name" in r["params"]]
+    if len(gms) == 1:
+        r = gms[0]
+        imp = IMPLIED[r["params"]["grid_mapping_name"]]
+        can = [j for j, c in enumerate(cons) if c["type"] in ("dim", "aux") and c["props"].get("standard_name") in imp]
+        if sorted(can) != sorted(r["coords"]):
+            out.append("grid-mapping-coordinates-not-implied-by-name")
+    if len(gms) > 1:
+        keyf = lambda r: lib.canon([r["params"], r["datum"]])  # noqa: E731
+        if len({keyf(r) for r in gms}) < len(gms):
+            out.append("equal-constructs-share-a-variable")
+    bs = [c["bounds"] for c in cons if c.get("bounds")]
+    for b in bs:
+        if b["ncdim"] is not None and any(o is not b and o["n"] == b["n"] and o["ncdim"] != b["ncdim"] for o in bs):
+            out.append("bounds-dimension-name-shared-by-size")
+            break
+    for c in cons:
+        b = c.get("bounds")
+        if b and any(k in c["props"] for k in b["props"] if k in OMIT_BOUNDS):
+            out.append("bounds-property-inherited-from-parent-dropped")
+            break
+    used = set()
+    for r in spec["refs"]:
+        used |= set((r.get("dancs") or {}).values())
+    if any(c["type"] == "danc" and j not in used for j, c in enumerate(cons)):
+        out.append("domain-ancillary-without-coordinate-reference")
+    for cm in spec["cms"]:
+        if ("over" in cm["quals"] or "within" in cm["quals"]) and len(cm["axes"]) == 1 and isinstance(cm["axes"][0], int):
+            a = cm["axes"][0]
+            if any(c.get("bounds") and not c.get("climatology") and c["axes"] == [a] for c in cons):
+                out.append("where-over-cell-method-taken-as-climatology")
+                break
+    with_dim = {c["axes"][0] for c in cons if c["type"] == "dim"}
+    if any(isinstance(a, int) and a not in with_dim for cm in spec["cms"] for a in cm["axes"]):
+        out.append("cell-method-axis-without-dimension-coordinate-equals")
+    if opts.get("fmt") == "NETCDF4_CLASSIC" and "_FillValue" in spec["props"] and cons:
+        out.append("netcdf4-classic-fill-value-after-data")
+    if any(c.get("dtype") == "S" and c.get("mask") for c in cons) or ((spec.get("data") or {}).get("dtype") == "S"
+                                                                     and spec["data"].get("mask")):
+        out.append("string-array-wider-than-its-longest-element-equals")
+    if any(c.get("nodata") and not c["axes"] for c in cons):
+        out.append("construct-without-axes-equals-raises")
+    # size-1 axes that the data do not span
+    for a in range(len(spec["axes"])):
+        if a in sp:
+            continue
+        on = [c for c in cons if a in c["axes"]]
+        dims = [c for c in on if c["type"] == "dim"]
+        if not on:
+            out.append("unspanned-size1-axis:no-coordinate")
+        elif dims and len(on) >= 2:
+            out.append("unspanned-size1-axis:data-gain-a-dimension")
+        elif not dims:
+            if len(on) == 1 and on[0]["type"] == "aux" and on[0]["axes"] == [a] and on[0]["dtype"] != "S":
+                out.append("unspanned-size1-axis:auxiliary-becomes-dimension-coordinate")
+            elif all(c["type"] == "aux" and c["axes"] == [a] for c in on):
+                out.append("unspanned-size1-axis:several-scalar-coordinates")
+            else:
+                out.append("unspanned-size1-axis:data-gain-a-dimension")
+    if any(c["type"] == "aux" and c["dtype"] == "S" and len(c["axes"]) == 1 and c["axes"][0] not in sp for c in cons):
+        out.append("string-scalar-coordinate")
+    # coordinates whose content is equal share one netCDF variable (the writer's `seen` registry)
+    sig = {}
+    for j, c in enumerate(cons):
+        if c["type"] == "danc":
+            continue
+    return out
+
+
+def row_ok(r):
+    return (r.get("n_read") == 1 and r.get("eq_fg") is True and r.get("eq_gf") is True and r.get("fp_equal") is True
+            and not r.get("names_lost") and r.get("source_unchanged", True))
+
+
+def describe(r):
+    for k in ("build_err", "write_err", "read_err", "equals_err", "harness_err"):
+        if k in r:
+            return f"{k}: {r[k][:160]}"
+    return (f"n_read={r.get('n_read')} equals={r.get('eq_fg')}/{r.get('eq_gf')} fingerprint_equal={r.get('fp_equal')} "
+            f"differs_in={r.get('fp_diff')} names_lost={r.get('names_lost')} source_unchanged={r.get('source_unchanged')}")
+
+
+# ---------------------------------------------------------------- running the implementation
+def run_cases(cases, scratch, nworkers=14):
+    """Run every case; a worker that dies is an observation: the case it was on gets a 'crash' row and the
+    rest of its shard is run again in a fresh worker."""
+    for i, c in enumerate(cases):
+        c["i"] = i
+    rows = [None] * len(cases)
+    pending = [cases[k::nworkers] for k in range(nworkers)]
+    pending = [s for s in pending if s]
+    rounds = 0
+    while pending and rounds < 12:
+        rounds += 1
+        res = lib.run_workers_parallel("drive/c01.py", [{"scratch": scratch, "cases": s} for s in pending], timeout=3000)
+        nxt = []
+        for s, (rc, out, err) in zip(pending, res):
+            for r in out:
+                if isinstance(r, dict) and "i" in r:
+                    rows[r["i"]] = r
+            left = [c for c in s if rows[c["i"]] is None]
+            if left:
+                rows[left[0]["i"]] = {"i": left[0]["i"], "crash": f"worker died rc={rc}: {err[-200:]}"}
+                if left[1:]:
+                    nxt.append(left[1:])
+        pending = nxt
+    return rows
+
+
+EXAMPLE_OPTIONS = [{}, {"fmt": "NETCDF4_CLASSIC"}, {"fmt": "NETCDF3_CLASSIC"}, {"fmt": "NETCDF3_64BIT_DATA"},
+                   {"string": False}, {"compress": 4, "shuffle": True, "fletcher32": True}, {"endian": "little"},
+                   {"group": False, "coordinates": True}, {"hdf5_chunks": "contiguous", "shuffle": False},
+                   {"fmt": "NETCDF3_64BIT_OFFSET", "coordinates": True}, {"compress": 9, "hdf5_chunks": "1 KiB"}]
+
+
+def build_cases(chk):
+    rng = chk.rng
+    T = chk.tier == "thorough"
+    cases = []
+    # corpus: the public example fields (incl. DSG 3-5, geometry 6, field 7) and their domains
+    for n in range(8):
+        for o in (EXAMPLE_OPTIONS if T else EXAMPLE_OPTIONS[:8]):
+            if n in (3, 4, 5, 6) and o.get("fmt", "NETCDF4") != "NETCDF4" and False:
+                continue
+            cases.append({"example": n, "options": o, "fam": "example"})
+        cases.append({"example": n, "domain": True, "options": {}, "fam": "example-domain"})
+        cases.append({"example": n, "domain": True, "options": {"fmt": "NETCDF3_CLASSIC", "group": False}, "fam": "example-domain"})
+    for spec, o in CORPUS:
+        cases.append({"spec": copy.deepcopy(spec), "options": dict(o), "fam": "corpus"})
+    nfull, ncore = (2400, 1500) if T else (420, 330)
+    for _ in range(nfull):
+        spec = gen_spec(rng, "full")
+        cases.append({"spec": spec, "options": gen_options(rng, spec, default=rng.random() < 0.25), "fam": "generated"})
+        if rng.random() < (0.8 if T else 0.5):
+            cases.append({"spec": spec, "options": gen_options(rng, spec), "fam": "generated"})
+    for _ in range(ncore):
+        spec = gen_spec(rng, "core")
+        o = {}
+        if rng.random() < 0.5:
+            o = gen_options(rng, spec)
+            o.pop("endian", None)
+        cases.append({"spec": spec, "options": o, "fam": "core"})
+    return cases
+
+
+# minimised earlier failures (spec, options); each is a witness through the public API
+CORPUS = [
+    # F01b: a netCDF dimension name set on a domain axis was replaced by the coordinate's standard name
+    ({"kind": "field", "props": {"standard_name": "air_temperature"}, "ncvar": "ta",
+      "axes": [{"size": 3, "ncdim": "t", "unlimited": False}],
+      "data": {"axes": [0], "dtype": "f8", "mask": False},
+      "cons": [{"type": "dim", "axes": [0], "props": {"standard_name": "time", "units": "days since 2000-01-01"},
+                "dtype": "f8", "ncvar": None, "mask": False}], "cms": [], "refs": []}, {}),
+    # F01c: endian='little' with a string-valued coordinate / a grid mapping
+    ({"kind": "field", "props": {"standard_name": "air_temperature"}, "ncvar": None,
+      "axes": [{"size": 2, "ncdim": None, "unlimited": False}],
+      "data": {"axes": [0], "dtype": "f4", "mask": False},
+      "cons": [{"type": "dim", "axes": [0], "props": {"standard_name": "latitude"}, "dtype": "f8", "ncvar": None, "mask": False},
+               {"type": "aux", "axes": [0], "props": {"long_name": "station"}, "dtype": "S", "ncvar": None, "mask": False}],
+      "cms": [], "refs": [{"coords": [0], "ncvar": None, "params": {"grid_mapping_name": "latitude_longitude"},
+                           "datum": {"earth_radius": 6371007.0}}]}, {"endian": "little"}),
+]
+
+
+def oracle(chk, cases, rows, stats):
+    """The property itself on the implementation: exactly one construct read, equal both ways, equal
+    fingerprints, every set netCDF name kept, source untouched."""
+    explained = set()
+    for c, r in zip(cases, rows):
+        fam = c["fam"]
+        stats["fam:" + fam] = stats.get("fam:" + fam, 0) + 1
+        if r is None:
+            chk.fail("correspondence", "worker-no-row", "no observation for a case", {"correspondence": "drive/c01.py", "input": c})
+            continue
+        if "build_err" in r:
+            stats["not-buildable"] = stats.get("not-buildable", 0) + 1
+            continue
+        exp = expected_findings(c["spec"], c["options"]) if "spec" in c else (
+            ["endian-big-read-back-dtype-not-equal"] if c["options"].get("endian") == "big" else [])
+        if "example" in c and c["example"] in (3, 4, 7) and c["options"].get("fmt") == "NETCDF4_CLASSIC":
+            exp.append("netcdf4-classic-fill-value-after-data")
+        if "example" in c and c["example"] == 1:
+            exp.append("equal-constructs-share-a-variable")
+        if "crash" in r:
+            explained.add(c["i"])
+            sig = "string-scalar-coordinate" if "string-scalar-coordinate" in exp else "worker-crash"
+            chk.fail("property", sig, f"the interpreter died while writing/reading: {r['crash'][:120]}",
+                     {"input": c, "expected": "a round trip", "observed": r})
+            continue
+        if "harness_err" in r and "n_read" not in r:
+            chk.fail("correspondence", "harness-error", r["harness_err"], {"correspondence": "drive/c01.py", "input": c})
+            continue
+        if row_ok(r):
+            stats["round-trips"] = stats.get("round-trips", 0) + 1
+            continue
+        explained.add(c["i"])
+        stats["failures"] = stats.get("failures", 0) + 1
+        if exp:
+            sig = exp[0]
+        elif "write_err" in r:
+            sig = "write-raises"
+        elif "read_err" in r:
+            sig = "read-raises"
+        elif r.get("n_read") != 1:
+            sig = "not-exactly-one-construct"
+        elif r.get("fp_equal") is False:
+            sig = "fingerprint-differs:" + ",".join(r.get("fp_diff") or [])
+        elif not (r.get("eq_fg") and r.get("eq_gf")):
+            sig = "equals-false"
+        elif r.get("names_lost"):
+            sig = "netcdf-name-lost:" + ",".join(sorted({n[1] for n in r["names_lost"]}))
+        else:
+            sig = "source-changed"
+        stats["sig:" + sig] = stats.get("sig:" + sig, 0) + 1
+        chk.fail("property", sig, f"write/read of a {c.get('fam')} case ({c['options']}): {describe(r)}",
+                 {"input": {k: v for k, v in c.items() if k != "i"}, "expected": "exactly one equal construct, equal fingerprint, names kept",
+                  "observed": {k: v for k, v in r.items() if k not in ("raw", "rskel")}})
+    return explained
+
+
+def correspondence(chk, cases, rows, explained, stats):
+    return 0
+
+
+def run(chk, model_ok):
+    cases = build_cases(chk)
+    rows = run_cases(cases, chk.scratch)
+    stats = {}
+    explained = oracle(chk, cases, rows, stats)
+    ncorr = correspondence(chk, cases, rows, explained, stats) if model_ok else 0
+    feats = {}
+    distinct = set()
+    for c in cases:
+        if "spec" not in c:
+            continue
+        sp = c["spec"]
+        tags = ["kind:" + sp["kind"], "axes:%d" % len(sp["axes"])]
+        tags += sorted({"con:" + x["type"] for x in sp["cons"]})
+        tags += ["fmt:" + c["options"].get("fmt", "NETCDF4")]
+        tags += sorted("opt:" + k for k in c["options"] if k != "fmt")
+        if any(x.get("bounds") for x in sp["cons"]):
+            tags.append("bounds")
+        if any(x.get("dtype") == "S" for x in sp["cons"]) or (sp.get("data") or {}).get("dtype") == "S":
+            tags.append("string-data")
+        if any(a["unlimited"] for a in sp["axes"]):
+            tags.append("unlimited")
+        if sp["cms"]:
+            tags.append("cell-methods")
+        if sp["refs"]:
+            tags.append("coordinate-references")
+        if any(x.get("external") for x in sp["cons"]):
+            tags.append("external-measure")
+        if set(range(len(sp["axes"]))) - spanned(sp) and sp["kind"] == "field":
+            tags.append("scalar-coordinate-axis")
+        for t in tags:
+            feats[t] = feats.get(t, 0) + 1
+        if len(sp["cons"]) >= 1:
+            distinct.add(lib.canon([sp, c["options"]]))
+    sample = [c for c in cases if c.get("fam") == "generated"][:2]
+    chk.coverage.update({
+        "evaluations": len(cases),
+        "distinct_nontrivial": len(distinct),
+        "rule": "a case is a (field or domain skeleton, write options) pair built through the public API, written with cfdm.write "
+                "and read with cfdm.read; non-trivial = at least one metadata construct; distinct by canonical JSON of skeleton+options. "
+                "Skeletons: 0-4 axes (sizes 1,2,3,5; equal sizes frequent), data of every netCDF dtype incl. strings with/without masks, "
+                "dimension/auxiliary/scalar coordinates with/without bounds, climatology, cell measures incl. external, field and domain "
+                "ancillaries, cell methods, grid-mapping and formula-terms coordinate references, vector-valued properties, netCDF names "
+                "set/unset/colliding defaults, unlimited axes; plus the eight example fields (DSG, geometry) and their domains",
+        "samples": [{k: v for k, v in c.items() if k != "i"} for c in sample],
+        "traces_validated_against_impl": ncorr,
+        "disagreements_checked": ncorr,
+        "features": feats,
+        "outcomes": stats,
+        "exhaustive": False,
+    })
+    chk.assumptions += [
+        "HDF5 / netCDF-C / netCDF4-python are trusted to return the bytes and attributes that were stored",
+        "set netCDF names are CF-style names (letters, digits, underscore) and pairwise distinct: a file cannot hold two objects of one name, "
+        "and the writer deliberately replaces blanks by underscores",
+        "a dimension coordinate's netCDF variable name and its axis's netCDF dimension name are one name in a file; when both are set and "
+        "differ the dimension name is not required to survive; a size-1 axis written as a scalar coordinate variable has no netCDF dimension",
+        "the Coq model covers the core fragment only (fields; dimension/auxiliary/scalar coordinates, bounds, cell measures, field ancillaries, "
+        "cell methods, name allocation); domains, coordinate references, domain ancillaries, external variables, climatology, DSG, geometries, "
+        "groups are carried by the oracle alone",
+        "byte order is a storage attribute: the fingerprint compares numpy dtype names (float64), cfdm's equals compares dtypes exactly",
+    ]
+
+
+def replay(chk, path):
+    d = json.load(open(path))
+    bad = 0
+    for x in d.get("cases", []):
+        c = x.get("input")
+        if not c or ("spec" not in c and "example" not in c):
+            continue
+        c = dict(c)
+        rows = run_cases([c], chk.scratch, nworkers=1)
+        r = rows[0]
+        print(json.dumps(c)[:400], "->", describe(r) if r else None)
+        bad += 0 if (r and row_ok(r)) else 1
+    return 1 if bad else 0
